@@ -7,7 +7,9 @@ copied from the harness's own table):
    the text and `must` passed through unchanged,
    root tags that correctly_signed_message(<msgtype>) accepts out of CANDIDATES,
    SOAP reader parse_soap_enveloped_saml_<msgtype> exists,
-   root tags that reader accepts out of CANDIDATES)
+   root tags that reader accepts out of CANDIDATES,
+   which of the pipeline steps _loads / loads / _verify / verify / issue_instant_ok the class resolves to a
+   definition OTHER than Request's own - the model has one of each for all kinds)
 Fail-closed: an unexpected shape raises -> broken obligation."""
 import importlib
 
@@ -31,6 +33,8 @@ METHODS = [("Server", "parse_authn_request"), ("Entity", "parse_logout_request")
            ("Server", "parse_attribute_query"), ("Server", "parse_authn_query"),
            ("Server", "parse_authz_decision_query"), ("Server", "parse_assertion_id_request"),
            ("Server", "parse_name_id_mapping_request"), ("Entity", "parse_manage_name_id_request")]
+
+PIPELINE = ["_loads", "loads", "_verify", "verify", "issue_instant_ok"]
 
 SOAP_ENV = '<e:Envelope xmlns:e="http://schemas.xmlsoap.org/soap/envelope/"><e:Body>%s</e:Body></e:Envelope>'
 
@@ -111,16 +115,18 @@ def record_rows():
                         soap_roots.append(label)
                 except Exception:
                     pass
+        # the steps of the pipeline are Request's own for every kind (looked up as the interpreter would, through the MRO)
+        overrides = [n for n in PIPELINE if hasattr(request.Request, n) and getattr(rcls, n) is not getattr(request.Request, n)]
         rows.append(("%s.%s" % (owner, meth), rcls.__name__, msgtype, service, sig_mt, passed, roots,
-                     reader is not None, soap_roots))
+                     reader is not None, soap_roots, overrides))
     return rows
 
 
 def regen_request_table():
     rows = record_rows()
-    body = ";\n".join("  (%s, %s, %s, %s, %s, %s, %s, %s, %s)" % (
+    body = ";\n".join("  (%s, %s, %s, %s, %s, %s, %s, %s, %s, %s)" % (
         cstr(r[0]), cstr(r[1]), cstr(r[2]), cstr(r[3]), cstr(r[4]), cbool(r[5]), clist(r[6], cstr), cbool(r[7]),
-        clist(r[8], cstr)) for r in rows)
-    text = (HDR + "Definition request_table : list (str * str * str * str * str * bool * list str * bool * list str) := [\n"
+        clist(r[8], cstr), clist(r[9], cstr)) for r in rows)
+    text = (HDR + "Definition request_table : list (str * str * str * str * str * bool * list str * bool * list str * list str) := [\n"
             + body + "\n].\n")
     return write_if_changed(COQ + "/Gen/RequestTable.v", text), rows
